@@ -509,7 +509,15 @@ func rulePairCacheCount(c *Ctx) {
 		case *ssa.Store:
 			if fa, ok := x.Addr.(*ssa.FieldAddr); ok && fieldOfAddr(fa) == fCount {
 				if k, ok := constInt(x.Val); ok && k == 1 {
-					if _, isAlloc := fa.X.(*ssa.Alloc); isAlloc {
+					base := fa.X
+					for {
+						inner, isFA := base.(*ssa.FieldAddr)
+						if !isFA {
+							break
+						}
+						base = inner.X // a counter wrapped in a nested struct of the new entry
+					}
+					if _, isAlloc := base.(*ssa.Alloc); isAlloc {
 						return []Ev{{Kind: "count+1", Note: "new entry"}}
 					}
 				}
